@@ -713,13 +713,30 @@ func c17Colour(c *Ctx, run *ssa.Function) {
 				}
 			}
 			if ssau.IsConstBool(st.Val, true) {
-				for _, d := range ssau.TransitiveControlDeps(cd, st.Block()) {
+				var env *ssa.Call
+				deps := ssau.TransitiveControlDeps(cd, st.Block())
+				for _, d := range deps {
 					if ex, ok := d.If().Cond.(*ssa.Extract); ok && ex.Index == 1 && d.Then {
 						if call, ok := ex.Tuple.(*ssa.Call); ok && ssau.CallName(call) == "os.LookupEnv" {
 							if s, _ := ssau.ConstString(call.Common().Args[0]); s == "NO_COLOR" {
-								envSrc = true
+								env = call
 							}
 						}
+					}
+				}
+				if env != nil {
+					// no further condition between the lookup and the assignment:
+					// NO_COLOR counts when present, whatever its value
+					only := true
+					for _, d := range deps {
+						if env.Block() == d.Branch || env.Block().Dominates(d.Branch) {
+							if ex, ok := d.If().Cond.(*ssa.Extract); !ok || ex.Tuple != ssa.Value(env) {
+								only = false
+							}
+						}
+					}
+					if only {
+						envSrc = true
 					}
 				}
 				continue
